@@ -55,7 +55,7 @@ SEPS = [("char", "-"), ("char", ""), ("char", " "), ("char", "¡"), ("char", " -
         ("preset", "SFSymbols"), ("preset", "SFDigitsSymbols"),
         ("recipe", Recipe(1, allow_chars="ab")), ("recipe", Recipe(2, allow_chars="é€x")), ("recipe", Recipe(2, allow=4, require_sets=["357"])),
         ("recipe", Recipe(3, allow=2, require=4)), ("recipe", Recipe(1, allow_chars="abc", exclude_chars="abc")), ("recipe", Recipe(0, allow=4))]
-CAPS = ["none", "first", "all", "random", "one", "weird", ""]
+CAPS = ["none", "first", "all", "random", "one", "weird", "", "All", "One", "RANDOM", "First"]   # scheme strings are case-sensitive: the last four are unknown
 
 PRESET_RECIPES = {
     "SFNone": None, "SFDigits1": Recipe(1, allow=4), "SFDigits2": Recipe(2, allow=4), "SFDigitsNoAmbiguous1": Recipe(1, allow=4, exclude=16),
@@ -86,10 +86,14 @@ def sep_json(sep):
     return [k, v.to_json() if isinstance(v, Recipe) else v]
 
 
-def wlgen_line(l, length, sep, cap, budget, words=None, chunks=None, emit=None, titles=None):
+def wlgen_line(l, length, sep, cap, budget, words=None, chunks=None, emit=None, titles=None, shadow=None):
+    """shadow: a SeparatorChar set *in addition to* a separator function (the documented rule: the function wins)"""
     src = chunks if chunks is not None else core.flat_tape(words)
     pre = "" if emit is None else "%s %s " % (emit, titles)
-    return "wlgen %s%s %d %s %s %d %d %d %s" % (pre, words_tokens(l), length, sep_tokens(sep), core.hx(cap), budget[0], budget[1], budget[2],
+    st = sep_tokens(sep)
+    if shadow is not None and sep[0] != "char":
+        st = "both %s %s" % (core.hx(shadow), st)
+    return "wlgen %s%s %d %s %s %d %d %d %s" % (pre, words_tokens(l), length, st, core.hx(cap), budget[0], budget[1], budget[2],
                                                core.src_tokens(src))
 
 
@@ -201,16 +205,18 @@ def parse_pre(res):
 def run_wlgen_family(ctx, cases, family="wlgen"):
     """cases: list of dict(list, length, sep, cap, budget, words, meta). Two-phase run; returns [(case, impl, model)]."""
     lines = []
+    # every other case uses its list for other recipes first ('+' label, see harness warmList): a shared *WordList
+    ids = ["w%d%s" % (i, "+" if i % 2 else "") for i in range(len(cases))]
     for i, c in enumerate(cases):
-        lines.append("w%d %s" % (i, wlgen_line(c["list"], c["length"], c["sep"], c["cap"], c["budget"], c.get("words"), chunks=c.get("chunks"))))
+        lines.append("%s %s" % (ids[i], wlgen_line(c["list"], c["length"], c["sep"], c["cap"], c["budget"], c.get("words"), chunks=c.get("chunks"), shadow=c.get("shadow"))))
     impl, n1 = core.run_impl(lines)
     mlines = []
     for i, c in enumerate(cases):
-        a = impl.get("w%d" % i)
+        a = impl.get(ids[i])
         order, titles, rest = parse_pre(a) if a else (None, None, None)
         emit = order if order is not None else "none"
         tl = titles if titles is not None else "0"
-        mlines.append("w%d %s" % (i, wlgen_line(c["list"], c["length"], c["sep"], c["cap"], c["budget"], c.get("words"), chunks=c.get("chunks"), emit=emit, titles=tl)))
+        mlines.append("%s %s" % (ids[i], wlgen_line(c["list"], c["length"], c["sep"], c["cap"], c["budget"], c.get("words"), chunks=c.get("chunks"), emit=emit, titles=tl, shadow=c.get("shadow"))))
     model, n2 = core.run_model(mlines)
     for n in (n1, n2):
         if n:
@@ -218,7 +224,8 @@ def run_wlgen_family(ctx, cases, family="wlgen"):
     fam = ctx.families.setdefault(family, {"cases": 0, "mismatches": 0})
     out = []
     for i, c in enumerate(cases):
-        a, b = impl.get("w%d" % i), model.get("w%d" % i)
+        a, b = impl.get(ids[i]), model.get(ids[i])
+        c.setdefault("meta", {})["shared_list_used_before"] = ids[i].endswith("+")
         ctx.evaluations += 1
         fam["cases"] += 1
         ok = a is not None and b is not None
@@ -266,11 +273,17 @@ def gen_cases(ctx, n, with_empty_word=False):
         sr = sep_recipe(sep)
         if sr is not None and sr.live_families() and budget[0] <= 12 and length >= 3:
             kinds = ["sepfail"] + kinds[:1]
+        # both separator fields set: SeparatorFunc, when non-nil, is the one used ("If nil just use SeperatorChar")
+        shadow = rng.choice(["+", "-", "é", " "]) if sep[0] != "char" and rng.random() < 0.15 else None
         for kind in kinds:
             words = make_tape(rng, size, length, sep, cap, kind, budget)
             cases.append({"list": l, "length": length, "sep": sep, "cap": cap, "budget": budget, "words": words,
                           "meta": {"list": l if isinstance(l, str) else l[:12], "length": length, "sep": sep_json(sep), "cap": cap, "budget": budget,
                                    "tape_kind": kind}})
+            if shadow is not None:
+                cases[-1]["shadow"] = shadow
+                cases[-1]["meta"]["separator_char_also_set"] = shadow
+                ctx.count("both_separator_fields")
             ctx.count("tape_" + kind)
         ctx.count("cap_" + (cap or "empty"))
         ctx.count("sep_" + sep[0])
@@ -332,7 +345,7 @@ def cell_tuples(size, L, sep, cap):
                 yield c, w, s
 
 
-def run_wl_cell(ctx, l, L, sep, cap, limit=6000):
+def run_wl_cell(ctx, l, L, sep, cap, limit=6000, shadow=None):
     """runs every choice tuple of the cell on the real code; returns list of (tuple, parsed result, order, titles)"""
     rng = ctx.rng
     size = py_size(l)
@@ -353,7 +366,7 @@ def run_wl_cell(ctx, l, L, sep, cap, limit=6000):
                 words += [chargen.word_for_index(rng, len(A), x) for x in s[i]]
         if A and sep[0] != "char":
             words += [0] * sl          # the Entropy() call
-        lines.append("t%d %s" % (k, wlgen_line(l, L, sep, cap, chargen.DEFAULT_BUDGET, words)))
+        lines.append("t%d %s" % (k, wlgen_line(l, L, sep, cap, chargen.DEFAULT_BUDGET, words, shadow=shadow)))
     impl, note = core.run_impl(lines)
     ctx.evaluations += len(lines)
     ctx.count("cell_tuples", len(lines))
